@@ -2,7 +2,7 @@
    The OCaml driver (ocaml/modelrun.ml) and the in-Coq cross-check both go through dispatch. *)
 From RcProxy Require Import Base.Bytes Base.Sx Base.Dec Gen.Generated Spec.KeySlot Model.Crc16
   Spec.RespGrammar Spec.SplitSpec Spec.CommandSpec
-  Spec.RouteSpec Model.RespBuf Model.Commands Model.ClientCodec Model.ClientFeed Model.ServerCodec Model.Route Model.AuthIp Model.Cluster Model.Proxy Model.Buffers Model.Info.
+  Spec.RouteSpec Model.RespBuf Model.Commands Model.ClientCodec Model.ClientCodecFast Model.ClientFeed Model.ServerCodec Model.Route Model.AuthIp Model.Cluster Model.Proxy Model.Buffers Model.Info.
 
 Definition e_hash (a : sx) : sx :=
   match a with SB k => sN (Hash k) | _ => bad end.
@@ -33,7 +33,7 @@ Definition sx_dec_out (d : dec_out) : sx :=
 
 Definition e_cdecode (a : sx) : sx :=
   match a with
-  | SL [SN limit; SB b] => sx_dec_out (decode limit b)
+  | SL [SN limit; SB b] => sx_dec_out (decode_fast limit b)   (* = decode limit b: Props/C06.v C06_evaluated_decoder_is_the_model *)
   | _ => bad
   end.
 
@@ -580,12 +580,13 @@ Fixpoint nodup_n (l : list N) : bool :=
 
 (* executable form of Spec.SplitSpec.wf_split1 / wf_split2 for the real slot function *)
 Definition split_ok (multi : bytes) (items : list (list bytes)) (body : list (N * bytes * bytes)) : bool :=
-  let slot_of (it : list bytes) := key_slot (hd [] it) in
+  (* every item paired with its slot once (the slot function costs a table walk per key byte) *)
+  let sitems := map (fun it : list bytes => (key_slot (hd [] it), it)) items in
   nodup_n (map (fun f => fst (fst f)) body)
-  && forallb (fun it => existsb (fun f => N.eqb (fst (fst f)) (slot_of it)) body) items
+  && forallb (fun si : N * list bytes => existsb (fun f => N.eqb (fst (fst f)) (fst si)) body) sitems
   && forallb (fun f =>
        let s := fst (fst f) in
-       let mine := filter (fun it => N.eqb (slot_of it) s) items in
+       let mine := map snd (filter (fun si : N * list bytes => N.eqb (fst si) s) sitems) in
        negb (match mine with [] => true | _ => false end)
        && match strict_request (snd f) with
           | Some got => sx_eqb (SL (map SB got)) (SL (map SB (multi :: concat mine)))
